@@ -1256,15 +1256,15 @@ def plan(tier, seed):
         flavours=["plain", "interferometer", "batch"], dc=[[1, 6], [2, 5]], count=int(14 * b), budget=80 * b, env=TF_ENV, weight=3, max_params=7)
     add("tf-function-1", kind="circuits", backend="tf", modes=["function-gradient", "outer-function", "function-jacobian"], rotate_modes=True,
         flavours=["plain", "batch", "interferometer"], dc=[[2, 4], [3, 4]], count=int(14 * b), budget=80 * b, env=TF_ENV, weight=3, max_params=7)
-    # JAX
+    # JAX (eager JAX compiles one kernel per primitive and shape: two (d, cutoff) pairs per shard)
     add("jax-grad-0", kind="circuits", backend="jax", modes=["grad"], flavours=["plain", "interferometer", "plain", "gaussian"],
-        count=int(30 * b), budget=80 * b, env=JAX_ENV)
+        dc=[[1, 6], [2, 5]], count=int(30 * b), budget=80 * b, env=JAX_ENV)
     add("jax-grad-1", kind="circuits", backend="jax", modes=["grad"], flavours=["interferometer", "plain", "batch", "plain"],
-        count=int(30 * b), budget=80 * b, env=JAX_ENV)
+        dc=[[2, 4], [3, 4]], count=int(30 * b), budget=80 * b, env=JAX_ENV)
     add("jax-jacobian", kind="circuits", backend="jax", modes=["jacrev", "jacfwd"], flavours=["plain", "interferometer", "gaussian", "batch"],
-        count=int(30 * b), budget=80 * b, env=JAX_ENV)
+        dc=[[2, 6], [1, 7]], count=int(30 * b), budget=80 * b, env=JAX_ENV)
     add("jax-jit", kind="circuits", backend="jax", modes=["jit-grad"], flavours=["plain", "interferometer", "plain", "gaussian"],
-        count=int(14 * b), budget=85 * b, env=JAX_ENV, max_params=7)
+        dc=[[2, 5], [3, 5], [1, 7]], count=int(14 * b), budget=85 * b, env=JAX_ENV, max_params=7)
     # permanent
     add("perm-0", kind="perm", count=int(60 * b), budget=45 * b, batch_reps=int(2 * b), passive=int(6 * b), env=PERM_ENV)
     add("perm-1", kind="perm", count=int(60 * b), budget=45 * b, batch_reps=int(2 * b), passive=int(6 * b), env=PERM_ENV)
@@ -1272,7 +1272,7 @@ def plan(tier, seed):
         add("tf-eager-2", kind="circuits", backend="tf", modes=["eager-gradient", "eager-jacobian"], flavours=["interferometer", "gaussian", "batch", "plain"],
             count=int(40 * b), budget=75 * b, env=TF_ENV, weight=3)
         add("jax-jacobian-1", kind="circuits", backend="jax", modes=["jacrev", "jacfwd"], flavours=["batch", "plain", "interferometer"],
-            count=int(30 * b), budget=80 * b, env=JAX_ENV)
+            dc=[[3, 6], [2, 7]], count=int(30 * b), budget=80 * b, env=JAX_ENV)
     return specs
 
 
